@@ -340,7 +340,7 @@ def calc_task_class():
 @st.composite
 def calendar_spec(draw, dead=False, backward=False, tod=False):
     kinds = ['default', 'weekly', 'weekly', 'weeklydict', 'direct_or_weekly', 'scaled', 'minus', 'bounded',
-             'sum', 'fixed', 'div', 'applied', 'handover', 'vacation']
+             'sum', 'fixed', 'div', 'applied', 'handover', 'vacation', 'divcal', 'applied_plain']
     if tod:
         # validity bounds with a time of day (crash-freedom only: "that day's capacity" has two values here)
         kinds = ['bounded_tod', 'fixed_tod']
@@ -360,6 +360,14 @@ def calendar_spec(draw, dead=False, backward=False, tod=False):
         # the bound lies inside the planning range (forward: days 1-15, backward: days 15-40)
         k = draw(st.integers(15, 40)) if backward else draw(st.integers(1, 15))
         return ['handover', days, units, k, sorted(draw(st.sets(st.integers(0, 6), min_size=1))), draw(st.sampled_from([8, 4, 2.5, 24]))]
+    if kind == 'divcal':
+        # a calendar divided by a calendar (crew hours / shifts): the divisor is 0 on its days off
+        return ['divcal', days, units, sorted(draw(st.sets(st.integers(0, 6), min_size=1))), draw(st.sampled_from([2, 4, 0.5]))]
+    if kind == 'applied_plain':
+        # apply() with a function that is written for numbers only (the declared signature): the dated calendar has days
+        # without information
+        return ['applied_plain', {str(draw(st.integers(-3, 25))): draw(st.sampled_from([2, 8, 0.5, 10])) for _ in range(draw(st.integers(1, 5)))},
+                days, units, draw(st.sampled_from([1, 0.5, 2])), draw(st.booleans())]
     if kind == 'vacation':
         a = draw(st.integers(15, 38)) if backward else draw(st.integers(0, 12))
         return ['vacation', days, units, a, draw(st.integers(0, 4))]
@@ -447,6 +455,14 @@ def make_calendar(cs, handles=None):
     if k == 'handover':
         return WeeklyCalendar(days=list(cs[1]), units_per_day=cs[2], end=BASE + timedelta(days=cs[3])) | \
             WeeklyCalendar(days=list(cs[4]), units_per_day=cs[5], start=BASE + timedelta(days=cs[3] + 1))
+    if k == 'divcal':
+        return WeeklyCalendar(days=list(cs[1]), units_per_day=cs[2]) / WeeklyCalendar(days=list(cs[3]), units_per_day=cs[4])
+    if k == 'applied_plain':
+        f = cs[4]
+        plain_fn = lambda u: u * f          # noqa: E731 - a function of a number, as apply() declares it
+        if cs[5]:
+            return _direct(cs[1], handles).apply(plain_fn) | WeeklyCalendar(days=list(cs[2]), units_per_day=cs[3])
+        return (_direct(cs[1], handles) | WeeklyCalendar(days=list(cs[2]), units_per_day=cs[3])).apply(plain_fn)
     if k == 'vacation':
         return WeeklyCalendar(days=list(cs[1]), units_per_day=cs[2]) - \
             FixedCalendar(cs[2], BASE + timedelta(days=cs[3]), BASE + timedelta(days=cs[3] + cs[4]))
@@ -495,6 +511,10 @@ def min_positive_capacity(cs):
         return cs[1] or 8
     if k == 'handover':
         return min(cs[2], cs[5]) or 8
+    if k == 'divcal':
+        return (cs[2] / cs[4]) or 8
+    if k == 'applied_plain':
+        return min([x for x in cs[1].values() if x > 0] + [cs[3]]) * cs[4] or 8
     if k == 'vacation':
         return cs[2] or 8
     return 8
